@@ -13,6 +13,7 @@ from harness.common import MachineryError
 
 def c02_trace(rec):
     return dict(id=rec['id'], prog=rec['prog'], raised=rec['raised'], err=rec['err'], nbytes=rec['nbytes'],
+                sha=rec.get('sha', ''), ref=rec.get('ref', ''),
                 parsed=rec['parsed'], created=rec['created'], wf=rec['wf'], wf_lost=rec.get('wf_lost', []),
                 desc=rec.get('desc', []))
 
@@ -111,6 +112,23 @@ def run(ctx):
         progs.append(sp.random_program(rnd, n, 'big%d' % i))
     recs = sp.run_builds(ctx, progs, desc=True)
     judge(ctx, recs, 'generated')
+    # 3. concurrent section: two or three threads build different valid programs with forced hand-overs; every
+    #    definition emitted under interleaving must be well-formed, ordered, described - and equal to the one built alone
+    ncase = 400 if thorough else 64
+    cases = []
+    nid = len(progs)
+    for _ in range(ncase):
+        k = rnd.choice([2, 2, 3])
+        ps = [sp.random_program(rnd, rnd.randint(6, 30), 'cc%d' % (nid + j), bad=None, variants=False) for j in range(k)]
+        cases.append(dict(ids=list(range(nid, nid + k)), progs=ps, at=rnd.randint(1, 12)))
+        nid += k
+    per = max(1, (len(cases) + 15) // 16)
+    outs = ctx.run_drivers('drivers/c02_conc.py', [dict(cases=cases[i:i + per]) for i in range(0, len(cases), per)])
+    crecs = [r_ for o in outs for r_ in o['recs']]
+    if len(crecs) != nid - len(progs):
+        raise MachineryError('concurrent driver returned %d records for %d programs' % (len(crecs), nid - len(progs)))
+    judge(ctx, crecs, 'built while another thread was building')
+    ctx.cov['concurrent'] = dict(cases=ncase, definitions=len(crecs), raised=sum(r_['raised'] for r_ in crecs))
     big = recs[-2]
     ctx.cov['largest_definition'] = dict(units=len(big['parsed']['defs'][0]['units']) if big['parsed']['defs'] else 0,
                                          constants=len(big['parsed']['defs'][0]['consts']) if big['parsed']['defs'] else 0,
